@@ -325,6 +325,16 @@ def check_inverse(run, facts, tm, fnname, price_fn, params, rule="R3", tag=""):
         run.check(rule, tag + "mantissa", ok, "the mantissa fed to the squaring loop is %s; expected price >> (msb - 63) or price << (63 - msb), nothing added" % (forms or "not found"), loc=fn.loc(),
                   detail="r := price >> (msb - 63) | price << (63 - msb)")
     loop = [at for at in ats if at.cond() and at.cond()[0] == "Lt" and unwrap(at.cond()[1])[0] == "var" and const_val(at.cond()[2]) == p and len(pv.var_defs(unwrap(at.cond()[1])[2])) >= 2]
+    if not loop:
+        # `for _ in 0..BIT_PRECISION`: the same bound as a range
+        for bi, bb in enumerate(fn.blocks):
+            for si, st in enumerate(bb["s"]):
+                agg = st.get("rv", {}).get("agg") if st["k"] == "=" else None
+                if agg and agg.get("k") == "adt" and agg["adt"].endswith("ops::Range") and not bb["c"]:
+                    t_ = pv._rvalue(st["rv"], bi, si, 0)
+                    d_ = dict(t_[3])
+                    if const_val(d_.get("start", ("unknown",))) == 0 and const_val(d_.get("end", ("unknown",))) == p:
+                        loop.append(("range", bi))
     run.check(rule, tag + "precision-loop", len(loop) == 1, "the log2 loop is not bounded by `<counter> < BIT_PRECISION`", loc=fn.loc(), detail="while bit > 0 && precision < %s" % p)
     named = [l for l in range(fn.argc + 1, len(fn.locals)) if fn.locals[l].get("n")]
     lows = [l for l in named if len(pv.var_defs(l)) == 1 and candidate(pv.var_defs(l)[0][2], "Sub", lo) is not None]
